@@ -170,7 +170,26 @@ def gen_ops(r, inputs, timeout):
     return ops[:20]
 
 
+def count_occ(data, s):
+    n, o = 0, data.find(s)
+    while o >= 0:
+        n += 1
+        o = data.find(s, o + 1)
+    return n
+
+
 def gen_case(r, cid):
+    # the order in which two different strings report TOO_MANY_MATCHES depends on the automaton's atoms, which the model does
+    # not know: keep to cases where at most one string of the rule set can exceed the limit
+    while True:
+        c = gen_case1(r, cid)
+        strs = c["rs"].all_strings()
+        heavy = [s for s in strs if any(count_occ(i.data, s) > MAXM for i in c["inputs"])]
+        if len(heavy) <= 1:
+            return c
+
+
+def gen_case1(r, cid):
     pool = gen_pool(r)
     inputs = list(pool)
     for x in pool:
@@ -288,8 +307,13 @@ def run(tier, replay=None):
                                           "fresh_scanner": "|".join(ref)}, sig)
             nd += 1
         if leak == "leak=1" and nl < 4:
+            f = dict(t.split("=", 1) for t in l.split()[1:] if "=" in t)
+            pending = any(m.endswith("rc=BLOCK_NOT_READY") and (i + 1 == len(main) or f["ops"].split(";")[i + 1].startswith("S"))
+                          for i, m in enumerate(main))
             report("leak_%s.json" % cid, {"kind": "leak after destroying the scanner (LeakSanitizer)", "engine": "hist", "harness": "h_hist",
-                                          "case": l, "implementation": "|".join(main)}, {"kind": "leak"})
+                                          "case": l, "implementation": "|".join(main)},
+                   {"kind": "leak", "suspended_scan_left_pending": pending, "imports_elf": "1" in f.get("mi", "").split("+"),
+                    "multi_block": any("+" in x.split("~")[1] for x in f["in"].split(";"))})
             nl += 1
     model = []
     if lres.get("driver_ok"):
